@@ -21,6 +21,12 @@ CLAIMS = {
         'document, iss == document id, inclusive exp/issuance bounds against the right options, consistency conversion, returned values are the signed ones.',
    note='Trusted as C01. Outside: JSON, crypto, check_consistency body (C07), resolve_method (C04).',
    technique=TECH_M, ref='DESIGN.md section 2 C03'),
+ 'C06': dict(
+   text='M: the legacy-format detector literal (read from the MIR) decided by z3 against the Base64Url text of every zlib default-compression stream (symbolic first deflate '
+        'byte) and of its legacy double encoding; binding audit of the encode/decode pipeline, endpoint prefix handling, the document read-modify-write, the per-index '
+        'revoke/unrevoke closures (lists <= 2) and revoked-iff-member in the status check.',
+   note='Trusted as C01. Outside: roaring set semantics and serialisation, zlib, base64 codec; large sets are exercised only by the native confirmation battery.',
+   technique='SMT query over the symbolic deflate byte (z3, bit-vector base64 model) + ' + TECH_M, ref='DESIGN.md section 2 C06'),
  'C10': dict(
    text='M kernels: the five DID character classes equal the W3C/RFC 3986 ABNF sets for every Unicode scalar value; M audit: every constructor of the plain DID type '
         'passes check_validity, DID-URL split validates and clears parts, join/setters validate before mutating; K (thorough): local validators on 3 symbolic bytes.',
